@@ -482,7 +482,9 @@ WITNESSES = {"C09:RandomForestClassifier:refused-although-fits": witness_forest,
 def check(ctx):
     r = ctx.fork("scenarios")
     max_cells = 400
-    n = ctx.budget(2400, 15000)
+    n = ctx.budget(1400, 15000)
+    if ctx.searching:
+        n = min(n, 5000 if ctx.tier == "quick" else 30000)     # keep the failing-input search within the tier's time limit
     entries = T.STAT_TOOLS + T.HIST_TOOLS + T.QUANT_TOOLS + MODELS
     scs = [dict(FOREST_WITNESS)]
     for i in range(n):
